@@ -2,6 +2,7 @@
 package localcachedmap
 
 import (
+	"strconv"
 	"sync"
 
 	"github.com/relex/slog-agent/util"
@@ -97,6 +98,9 @@ type LocalCachedMap[G any, L any] struct {
 func (lm *LocalCachedMap[G, L]) GetOrCreate(tempKeys []string, onCreating func(permKeys []string)) L {
 	tempMergedKey := lm.keyBuffer
 	for _, tkey := range tempKeys {
+		// prefix each key with its length so that different key tuples never merge into the same string
+		tempMergedKey = strconv.AppendInt(tempMergedKey, int64(len(tkey)), 10)
+		tempMergedKey = append(tempMergedKey, ':')
 		tempMergedKey = append(tempMergedKey, tkey...)
 	}
 	lm.keyBuffer = tempMergedKey[:0]
